@@ -1,6 +1,6 @@
 """C18 - surrogate models are consistent with their own predictions and data (engine E2).
 
-Four case families, all complete products of small structural axes (``mc.product.full`` sharded with
+Five case families, all complete products of small structural axes (``mc.product.full`` sharded with
 ``mc.core.pmap``):
 
 ``reg``     regressor setting (every class of ``RegressorFactory`` that overrides ``_predict_jacobian`` x its
@@ -14,6 +14,14 @@ Four case families, all complete products of small structural axes (``mc.product
             settings.  The observations must be bitwise unchanged (the model was not retrained) and the Jacobian must still be
             the derivative of the prediction.  Signature: invariant + resampling method + mechanism (were the model's
             transformers refitted in place?), not the regressor: the defect site is the resampler.
+
+``fmt``     input formats: on learning sets with 2-3 named input variables of sizes 1-2 (declared in an order that is
+            neither the model's alphabetical order nor its reverse; default and explicitly reversed input/output names),
+            every public entry point accepting data (predict, predict_jacobian, MOE predict_class / predict_local_model,
+            OTGPR predict_std / compute_samples, SurrogateDiscipline.execute / linearize) is called with (i) an array,
+            (ii) a dict in model order, (iii) a dict in every other key order, (iv) dicts with an extra non-input entry,
+            for one and for several samples: same values bitwise, same labels.  Transformers only take arrays.  Signature:
+            entry point + format class (the defect site is a data formatter, not a regressor).
 
 Composite regressors (MOE with ``set_regressor``/``add_regressor_candidate``, RegressorChain members) are also enumerated
 with sub-models that have their OWN input/output transformers, crossed with the composite's transformer axis: the
@@ -138,6 +146,13 @@ SETS = {
     "S4:x1->y2": ([("x", 1)], [("y", 2)], 9),
 }
 QUICK_SETS = ["S1:x1->y1", "S2:x2->y1,z1", "S3:a1,b1->y1"]
+# learning sets of the input-format family: >= 2 named inputs of sizes 1-2, declared in an order that is neither the
+# alphabetical one (the order IODataset and hence the model use) nor its reverse
+FORMAT_SETS = {
+    "F2:b1,a2->z1,y1": ([("b", 1), ("a", 2)], [("z", 1), ("y", 1)], 20),
+    "F3:c1,a2,b1->y2": ([("c", 1), ("a", 2), ("b", 1)], [("y", 2)], 24),
+}
+SETS.update(FORMAT_SETS)
 
 
 def _vdc(i: int, base: int) -> float:
@@ -156,15 +171,17 @@ def make_set(table: int, name: str):
     d = sum(s for _, s in ins)
     m = sum(s for _, s in outs)
     tab = TABLES[table]
-    box = np.array(tab["box"][:d], dtype=float)
+    box = np.array([tab["box"][j % 2] for j in range(d)], dtype=float)
     lo, w = box[:, 0], box[:, 1] - box[:, 0]
-    u = np.array([[_vdc(i + 1, b) for b in (2, 3)[:d]] for i in range(n)])
+    u = np.array([[_vdc(i + 1, b) for b in (2, 3, 5, 7)[:d]] for i in range(n)])
     x = lo + w * u
     y = np.column_stack([tab["f"][k](x) for k in range(m)])
+    if d > 2:  # the tabulated functions read the first and last columns: couple the middle ones as well
+        y = y + 0.3 * np.arange(1, m + 1) * ((x[:, 1:-1] ** 2).sum(1) * x[:, 0])[:, None]
     q, k = [], 0
     while len(q) < NQ:
         k += 1
-        c = 0.08 + 0.84 * np.array([_vdc(k, b) for b in (5, 7)[:d]])
+        c = 0.08 + 0.84 * np.array([_vdc(k, b) for b in (5, 7, 11, 13)[:d]])
         if np.sqrt(((u - c) ** 2).sum(1)).min() >= 0.02:  # >= 5 stencil radii away from every learning point
             q.append(lo + w * c)
     h = w * 2.0**-10
@@ -442,6 +459,9 @@ def build_model(case, s, dataset=None):
     if reg.get("pspace"):
         settings["probability_space"] = probability_space(reg["pspace"], s)
     ds = dataset if dataset is not None else make_dataset(s)
+    if case.get("names") == "reversed":  # explicit names, in the reverse of the dataset's (alphabetical) order
+        settings["input_names"] = list(reversed(ds.get_variable_names(ds.INPUT_GROUP)))
+        settings["output_names"] = list(reversed(ds.get_variable_names(ds.OUTPUT_GROUP)))
     model = factory().create(reg["cls"], data=ds, transformer=transformer_dict(case, s), **settings)
     if reg.get("moe"):
         k, name, kw, *sub = reg["moe"]
@@ -1235,6 +1255,196 @@ def run_hist(case, tally) -> None:
         tally.violation(sig, case, f"{inv}: {case['reg']['cls']}({case['reg']['label']}) {reg_label(case)} on {case['set']} (table {case['table']}), history learn; predict; {case['measure']} by {case['resampling']}; predict\n{msg}")
 
 
+# ------------------------------------------------------------------------------------------------------------------
+# family "fmt": every public entry point called with every input format gives the same, identically labelled values
+# ------------------------------------------------------------------------------------------------------------------
+FMT_TRANSFORMERS = [
+    ([], []),
+    (["MinMaxScaler"], ["MinMaxScaler"]),
+    (["PCA"], ["StandardScaler"]),
+    (["var", "MinMaxScaler"], ["var", "StandardScaler"]),  # per-variable: the formatter splits the array by names
+    (["YeoJohnson"], []),
+]
+
+
+def fmt_regressors(thorough: bool) -> list[dict]:
+    want = [
+        ("LinearRegressor", "default"),
+        ("PolynomialRegressor", "degree=2"),
+        ("RBFRegressor", "function=cubic,epsilon=0.5"),
+        ("RBFRegressor", "function=multiquadric,epsilon=None"),
+        ("TPSRegressor", "epsilon=None"),
+        ("PCERegressor", "degree=2;pspace=uniform"),
+        ("MOERegressor", "hard=True;moe=[2, 'PolynomialRegressor', {'degree': 2}]"),
+        ("MOERegressor", "hard=True;moe=[2, 'PolynomialRegressor', {'degree': 2}, {'in': ['Scaler'], 'out': ['Scaler']}]"),
+        ("RegressorChain", "default;chain=[['PolynomialRegressor', {'degree': 2}], ['RBFRegressor', {'function': 'cubic', 'epsilon': 0.5}]]"),
+        ("OTGaussianProcessRegressor", "default"),
+    ]
+    if thorough:
+        want += [
+            ("PolynomialRegressor", "degree=3"),
+            ("RBFRegressor", "function=gaussian,epsilon=1.0"),
+            ("PCERegressor", "degree=2;pspace=normal"),
+            ("MOERegressor", "hard=False;moe=[2, 'LinearRegressor', {}]"),
+            ("OTGaussianProcessRegressor", "covariance_model=Matern32"),
+        ]
+    regs = {(r["cls"], r["label"]): r for r in regressor_settings(thorough)}
+    return [regs[k] for k in want]
+
+
+def input_formats(values: dict, model_order: list[str], other_names: list[str], all_orders: bool) -> list[tuple[str, str, dict]]:
+    """(format class, label, mapping): model order, every other key order, mappings with an extra non-input entry."""
+    import itertools
+
+    out = [("dict-model-order", ",".join(model_order), {n: values[n] for n in model_order})]
+    perms = [p for p in itertools.permutations(model_order) if list(p) != model_order]
+    if not all_orders:
+        perms = perms[-1:]  # the reversed order
+    for perm in perms:
+        out.append(("dict-other-key-order", ",".join(perm), {n: values[n] for n in perm}))
+    extra = np.full_like(values[model_order[0]], 7.5)
+    out.append(("dict-with-extra-entry", "extra-first", {"zz_not_an_input": extra, **{n: values[n] for n in model_order}}))
+    rev = list(reversed(model_order))
+    mixed = {rev[0]: values[rev[0]], other_names[0]: extra}  # an *output* name among the keys, keys in reverse order
+    mixed.update({n: values[n] for n in rev[1:]})
+    out.append(("dict-with-extra-entry", "output-name-inside,reversed", mixed))
+    return out
+
+
+def check_fmt(case, res) -> None:
+    from gemseo.disciplines.surrogate import SurrogateDiscipline
+
+    s = make_set(case["table"], case["set"])
+    viol = res["violations"]
+    reg = case["reg"]
+    try:
+        model = build_model(case, s)
+    except Exception as e:  # noqa: BLE001
+        if third_party_training_failure(e):
+            res["outcome"] = f"fmt:training-failed-in-third-party({type(e).__name__})"
+            return
+        raise
+    sizes = dict(s["ins"]) | dict(s["outs"])
+    in_names, out_names = list(model.input_names), list(model.output_names)
+    cols, off = {}, 0
+    for nm, sz in s["ins"]:
+        cols[nm] = slice(off, off + sz)
+        off += sz
+
+    def same(a, b) -> bool:
+        a, b = np.asarray(a), np.asarray(b)
+        return a.shape == b.shape and np.array_equal(a, b, equal_nan=True)
+
+    def bad(entry, fclass, label, msg):
+        viol.append((f"input-format:{entry}:{fclass}", f"{entry} called with {fclass} ({label}), model.input_names={in_names}, output_names={out_names}: {msg}"))
+
+    n_calls = 0
+    available = True
+    point_dependent = False
+    disc = SurrogateDiscipline(model)
+    for shape, rows in (("one sample", s["Q"][0]), ("3 samples", s["Q"][:3])):
+        values = {nm: np.array(rows[..., cols[nm]]) for nm in sizes if nm in cols}
+        arr = np.concatenate([values[n] for n in in_names], axis=-1)  # (i) the array format, in the model's order
+        ref_p = np.asarray(model.predict(arr.copy()))
+        try:
+            ref_j = np.asarray(model.predict_jacobian(arr.copy()))
+        except NotImplementedError:
+            available, ref_j = False, None
+        if ref_j is not None and rows.ndim == 2:
+            point_dependent = not np.allclose(ref_j[0], ref_j[1], rtol=1e-6, atol=0)
+        extras = {}
+        if reg["cls"] == "MOERegressor":
+            extras["predict_class"] = lambda x: model.predict_class(x)
+            extras["predict_local_model"] = lambda x: model.predict_local_model(x, 0)
+        if reg["cls"] == "OTGaussianProcessRegressor":
+            extras["predict_std"] = lambda x: model.predict_std(x)
+            extras["compute_samples"] = lambda x: model.compute_samples(x, 2, seed=3)
+        ref_x = {k: f(arr.copy()) for k, f in extras.items()}
+        for fclass, label, mapping in input_formats(values, in_names, out_names, case["orders"] == "all"):
+            label = f"{label}; {shape}"
+            keys_before = list(mapping)
+            cp = lambda: {k: v.copy() for k, v in mapping.items()}  # noqa: E731
+            # predict
+            p = model.predict(cp())
+            n_calls += 1
+            if not isinstance(p, dict) or set(p) != set(out_names):
+                bad("predict", fclass, label, f"returns {type(p).__name__} with keys {list(p) if isinstance(p, dict) else None}")
+            elif not same(np.concatenate([np.asarray(p[n]) for n in out_names], axis=-1), ref_p):
+                bad("predict", fclass, label, f"{ {k: np.asarray(v).tolist() for k, v in p.items()} } but the array form gives {ref_p.tolist()} (outputs {out_names})")
+            # predict_jacobian
+            if ref_j is not None:
+                j = model.predict_jacobian(cp())
+                n_calls += 1
+                ro = 0
+                for on in out_names:
+                    co = 0
+                    for inn in in_names:
+                        exp = ref_j[..., ro : ro + sizes[on], co : co + sizes[inn]]
+                        got = j.get(on, {}).get(inn) if isinstance(j, dict) else None
+                        if got is None or set(j) != set(out_names) or set(j[on]) != set(in_names):
+                            bad("predict_jacobian", fclass, label, f"labels {({k: list(v) for k, v in j.items()} if isinstance(j, dict) else type(j).__name__)}")
+                        elif not same(got, exp):
+                            bad("predict_jacobian", fclass, label, f"d{on}/d{inn} = {np.asarray(got).tolist()} but the array form (same point) gives {exp.tolist()}")
+                        co += sizes[inn]
+                    ro += sizes[on]
+            # class-specific entry points accepting mappings
+            for name, f in extras.items():
+                try:
+                    got = f(cp())
+                except NotImplementedError:
+                    continue
+                n_calls += 1
+                exp = ref_x[name]
+                if isinstance(got, dict):
+                    got = np.concatenate([np.asarray(got[n]) for n in (out_names if set(got) == set(out_names) else list(got))], axis=-1)
+                if isinstance(exp, dict):
+                    exp = np.concatenate([np.asarray(exp[n]) for n in out_names], axis=-1)
+                if not same(np.squeeze(np.asarray(got)), np.squeeze(np.asarray(exp))):
+                    bad(name, fclass, label, f"{np.asarray(got).tolist()} but the array form gives {np.asarray(exp).tolist()}")
+            if list(mapping) != keys_before:
+                bad("predict", fclass, label, f"the caller's mapping was reordered/modified: {keys_before} -> {list(mapping)}")
+            # surrogate discipline (single sample only; extra entries are not part of its grammar)
+            if rows.ndim == 1 and fclass != "dict-with-extra-entry":
+                out = disc.execute(cp())
+                n_calls += 1
+                if not same(np.concatenate([np.asarray(out[n]).ravel() for n in out_names]), ref_p.ravel()):
+                    bad("SurrogateDiscipline.execute", fclass, label, f"{ {n: np.asarray(out[n]).tolist() for n in out_names} } but model.predict(array) gives {ref_p.tolist()}")
+                if ref_j is not None:
+                    jl = disc.linearize(cp(), compute_all_jacobians=True)
+                    ro = 0
+                    for on in out_names:
+                        co = 0
+                        for inn in in_names:
+                            exp = ref_j[ro : ro + sizes[on], co : co + sizes[inn]]
+                            if not same(jl[on][inn], exp):
+                                bad("SurrogateDiscipline.linearize", fclass, label, f"d{on}/d{inn} = {np.asarray(jl[on][inn]).tolist()} but model.predict_jacobian(array) gives {exp.tolist()}")
+                            co += sizes[inn]
+                        ro += sizes[on]
+    res["obs"].update(calls=n_calls, input_names=in_names, output_names=out_names, jacobian_depends_on_point=bool(point_dependent))
+    res["sharp"] = bool(point_dependent) or not available
+    res["outcome"] = "fmt:" + ("jacobian-depends-on-point" if point_dependent else "constant-jacobian" if available else "no-jacobian")
+
+
+def run_fmt(case, tally) -> None:
+    res = _safe_check(check_fmt, case)
+    key = ("fmt", case["table"], case["set"], case["reg"]["cls"], case["reg"]["label"], reg_label(case), case["names"], case["orders"])
+    tally.case(key, nontrivial=res["sharp"], outcome=res["outcome"], sample={"case": case, "observed": res["obs"]} if sampled(key) else None)
+    tally.count("format_calls", res["obs"].get("calls", 0))
+    seen = set()
+    for inv, msg in res["violations"]:
+        if inv in seen:
+            continue
+        seen.add(inv)
+        # the defect site is a data formatter (entry point x format class), not a regressor: the regressor is kept out of
+        # the signature except for crashes, whose site is named by the traceback
+        if inv == "raises":
+            sig = {"invariant": "raises", "family": "input-format", "regressor": case["reg"]["cls"], "site": res["obs"].get("site")}
+        else:
+            _, entry, fclass = inv.split(":")
+            sig = {"invariant": "input-format", "entry": entry, "format": fclass}
+        tally.violation(sig, case, f"{inv}: {case['reg']['cls']}({case['reg']['label']}) {reg_label(case)} names={case['names']} on {case['set']} (table {case['table']})\n{msg}")
+
+
 _QUIET = False
 
 
@@ -1249,14 +1459,14 @@ def _quiet() -> None:
 
 def run_case(case, tally) -> None:
     _quiet()
-    {"reg": run_reg, "tr": run_tr, "byname": run_byname, "hist": run_hist}[case["family"]](case, tally)
+    {"reg": run_reg, "tr": run_tr, "byname": run_byname, "hist": run_hist, "fmt": run_fmt}[case["family"]](case, tally)
 
 
 # ------------------------------------------------------------------------------------------------------------------
 # enumeration
 # ------------------------------------------------------------------------------------------------------------------
 def enumerate_cases(table: int, thorough: bool, only: str | None = None):
-    sets = list(SETS) if thorough else QUICK_SETS
+    sets = [k for k in SETS if k not in FORMAT_SETS] if thorough else QUICK_SETS
     regs = regressor_settings(thorough)
     pairs = transformer_pairs(thorough)
     dropped = 0
@@ -1290,10 +1500,19 @@ def enumerate_cases(table: int, thorough: bool, only: str | None = None):
         if c["reg"]["cls"] == "PCERegressor" and tin:
             continue  # documented: no input transformer for PCE
         cases.append({"family": "hist", "table": table, "set": c["set"], "reg": c["reg"], "tin": tin, "tout": tout, "resampling": c["history"][0], "measure": c["history"][1]})
+    # input formats: array / dict in model order / every other key order / extra entries, on >= 2 named input variables
+    fsets = ["S3:a1,b1->y1", *FORMAT_SETS]
+    for c in product.full({"pair": FMT_TRANSFORMERS, "names": ["default", "reversed"], "set": fsets, "reg": fmt_regressors(thorough)}):
+        tin, tout = c["pair"]
+        if c["reg"]["cls"] == "PCERegressor" and tin:
+            continue
+        if "YeoJohnson" in spec_atoms(tin) and c["names"] == "reversed" and not thorough:
+            continue
+        cases.append({"family": "fmt", "table": table, "set": c["set"], "reg": c["reg"], "tin": tin, "tout": tout, "names": c["names"], "orders": "all"})
     # the histories are the most expensive cases (5-16 trainings each): scheduled first so that they do not form a tail
     cases = [c for c in cases if c["family"] == "hist"] + [c for c in cases if c["family"] != "hist"]
     if only:
-        cases = [c for c in cases if only in (c["family"] + ":" + str(c.get("reg", {}).get("cls", "")) + ":" + str(c.get("reg", {}).get("label", "")) + ":" + (reg_label(c) if "tin" in c else spec_label(c["pipe"])) + ":" + c.get("set", c.get("matrix", "")) + ":" + c.get("resampling", "") + ":" + c.get("measure", ""))]
+        cases = [c for c in cases if only in (c["family"] + ":" + str(c.get("reg", {}).get("cls", "")) + ":" + str(c.get("reg", {}).get("label", "")) + ":" + (reg_label(c) if "tin" in c else spec_label(c["pipe"])) + ":" + c.get("set", c.get("matrix", "")) + ":" + c.get("resampling", "") + ":" + c.get("measure", "") + ":" + c.get("names", ""))]
     return cases, dropped, {"sets": sets, "regressor_settings": len(regs), "transformer_pairs": len(pairs), "group_pipelines": sum(len(x) for x in group_pipelines(thorough)), "transformer_family_pipelines": len(tr_pipelines(thorough))}
 
 
@@ -1345,7 +1564,7 @@ def run(ctx):
 def replay(case, ctx):
     _quiet()
     fam = case.get("family", "reg")
-    res = _safe_check({"reg": check_reg, "tr": check_tr, "byname": check_byname, "hist": check_hist}[fam], case)
+    res = _safe_check({"reg": check_reg, "tr": check_tr, "byname": check_byname, "hist": check_hist, "fmt": check_fmt}[fam], case)
     return {
         "case": case,
         "outcome": res["outcome"],
